@@ -368,6 +368,10 @@ def _pin_mapping(env):
     return m
 
 
+# every statement about aerodynamic or structural results rests on "the system solved is that of the current point"
+SOLVE_PROPS = "C02,C03,C04,C05,C06,C07,C08,C09,C10,C15,C16,C19"
+
+
 def implicit_contract(env, factory, setup_model=None, pre=None, requires=None):
     """implicit component (R(inputs, outputs) = 0):
     C01: linearize J[of, wrt] == d R_of / d wrt for inputs and outputs, undeclared pairs zero.
@@ -451,9 +455,9 @@ def implicit_contract(env, factory, setup_model=None, pre=None, requires=None):
                 tag = (" @path(%s)" % ";".join("%s=%s" % (_short(c), "T" if b else "F") for c, b in path)) if path else ""
                 env.holds("C02,C03", "S-nl after a visit to another point: one factorised solve%s" % tag, len(sol) == 1, "%d solves" % len(sol))
                 if len(sol) == 1:
-                    env.eq("C02,C03,C05,C07,C10", "S-nl after a visit to another point the factorised matrix is that of the current point%s" % tag,
+                    env.eq(SOLVE_PROPS, "S-nl after a visit to another point the factorised matrix is that of the current point%s" % tag,
                            sol[0]["A"], fresh_rec["A"])
-                    env.eq("C02,C03,C05,C07,C10", "S-nl after a visit to another point the right-hand side is the current one%s" % tag,
+                    env.eq(SOLVE_PROPS, "S-nl after a visit to another point the right-hand side is the current one%s" % tag,
                            np.asarray(sol[0]["b"], dtype=object).reshape(-1), np.asarray(fresh_rec["b"], dtype=object).reshape(-1))
             del spshim.SOLVES[:]
         # solve_linear after linearize at (ins, x): both modes
@@ -514,7 +518,7 @@ def implicit_contract(env, factory, setup_model=None, pre=None, requires=None):
         r2 = h.residual(ins, x2)
         sc = max(float(np.max(np.abs(np.asarray(ins[k], dtype=float)))) for k in h.in_names)
         for n in h.out_names:
-            env.eq("C02,C03,C05,C07,C10", "S-nl after a visit to another point the factorised matrix is that of the current point",
+            env.eq(SOLVE_PROPS, "S-nl after a visit to another point the factorised matrix is that of the current point",
                    np.asarray(r2[n]).reshape(-1) / sc, 0 * np.asarray(r2[n]).reshape(-1))
     return h
 
